@@ -503,4 +503,26 @@ def check(facts, rep, tier, cfg):
                     "stalls before the upgrade (TLS handshake, connect) is waited for without bound, so the client neither retries nor gives up")
     if "client" in crate.features:
         rep.floor("C19.R9", "handshake drivers", k9, 1)
+    # ---- R10 an accepted local connection is queued, never refused because the request queue is momentarily full
+    rep.rule("C19.R10", "client handlers acquire their slot on the stream-request channel by awaiting it (reserve / send), never by a non-blocking "
+                        "try_reserve / try_send whose `Full` outcome would drop the local connection or end the listener")
+    k10 = 0
+    for b in crate.bodies:
+        if "/src/client/" not in b.file:
+            continue
+        for bi, t in b.calls():
+            c = callee(t)
+            if not c or "StreamCommand" not in c["path"] or "mpsc" not in c["def"]:
+                continue
+            if c["name"] in ("reserve", "send", "reserve_owned", "try_reserve", "try_send", "try_reserve_owned"):
+                k10 += 1
+                where = "%s (%s)" % (loc_str(t["loc"]), b.path)
+                if c["name"].startswith("try_"):
+                    rep.bad("C19.R10", "request-queue-awaited/%s" % b.path.split("::{")[0], where,
+                            "`%s` on the stream-request channel: when the queue is full (tunnel down, many waiting connections) the local "
+                            "connection is dropped / the listener exits instead of waiting for the next successful connection" % c["name"])
+                else:
+                    rep.ok("C19.R10", "request-queue-awaited/%s#%d" % (b.path.split("::{")[0], k10), where, c["name"])
+    if "client" in crate.features:
+        rep.floor("C19.R10", "acquisitions of the stream-request channel", k10, 3)
 
